@@ -2869,6 +2869,7 @@ template <typename T>
       static_assert(H > 0 || !Parent::sequence_set,
                     "IN_SEQUENCE and TIMES(0) does not make sense");
 
+      auto lock = get_lock();
       m.matcher->sequences->set_limits(L, H);
       TROMPELOEIL_VERIF_EVENT("limits", m.matcher.get(), Parent::sequence_set);
       return {std::move(m).matcher};
@@ -2893,6 +2894,7 @@ template <typename T>
          throw std::logic_error{"In RT_TIMES the first value must not exceed the second"};
       }
 
+      auto lock = get_lock();
       m.matcher->sequences->set_limits(bounds.low, bounds.high);
       TROMPELOEIL_VERIF_EVENT("limits", m.matcher.get(), Parent::sequence_set);
       return std::move(m).matcher;
